@@ -183,7 +183,7 @@ def run_cont(c, o):
         o.true("cont/halving", max(d1, d2) <= 3.0 * nb + 1e-12, "jump inside the Mach interval [%.3f, %.3f]: half-step increments %.3e, %.3e vs ladder increments %.3e" % (Ms[k], Ms[k + 1], d1, d2, nb))
     x0 = at(0.0)
     x1 = at(1e-8)
-    o.close("cont/M_to_0", x1, x0, rtol=1e-12, atol=1e-300)
+    o.close("cont/M_to_0", x1, x0, rtol=1e-10, atol=1e-300)
     o.nontrivial = True
 
 
